@@ -69,12 +69,23 @@ func readIdle(c net.Conn, idle time.Duration, max int) []byte {
 
 // demux splits a multiplexed server stream into data payload and error/info messages
 func demuxAll(b []byte) (data []byte, msgs []string) {
-	for len(b) >= 4 {
+	data, msgs, _ = demuxPartial(b)
+	return
+}
+
+// demuxPartial also says whether the stream ends on a frame boundary
+func demuxPartial(b []byte) (data []byte, msgs []string, complete bool) {
+	complete = true
+	for len(b) > 0 {
+		if len(b) < 4 {
+			return data, msgs, false
+		}
 		h := binary.LittleEndian.Uint32(b)
 		tag, n := int(h>>24)-7, int(h&0xffffff)
 		b = b[4:]
 		if n > len(b) {
 			n = len(b)
+			complete = false
 		}
 		if tag == 0 {
 			data = append(data, b[:n]...)
@@ -83,7 +94,7 @@ func demuxAll(b []byte) (data []byte, msgs []string) {
 		}
 		b = b[n:]
 	}
-	return
+	return data, msgs, complete
 }
 
 // talk runs one scripted session. role: "pull" (we receive), "push" (we upload uplName with uplData)
@@ -162,8 +173,8 @@ func talk(addr, greeting, moduleLine string, argLines []string, role string, o r
 			rest = append(rest, buf[:n]...)
 			if n > 0 {
 				quiet = 0
-				d, m := demuxAll(rest)
-				if len(m) > 0 {
+				d, m, whole := demuxPartial(rest)
+				if len(m) > 0 && whole {
 					break
 				}
 				if _, _, left, derr := refDecodeList(d, o); derr == nil && len(left) == 0 {
